@@ -15,7 +15,7 @@ set_option linter.unusedSectionVars false
 namespace Ucan.Tie
 open Ucan Ucan.GoM
 
-variable {D C S : Type} [DecidableEq D]
+variable {D C S A : Type} [DecidableEq D]
 
 def topCmd : Bytes := [47]
 
@@ -44,7 +44,7 @@ theorem PrincipalSpec_of_top {X : Type} (inv : Chain.Inv D C X) (ds : List (Chai
 
 /-- when the shell loop runs to the end from position `k`, the model's alignment loop accepts the rest of the chain with
 all commands `/` -/
-theorem shell_loop (cov : Bytes → Bytes → GoM Bool) (undef : D) (pol) (g : Gen.InvTok D C) (ds : List (Gen.DlgTok D S))
+theorem shell_loop (cov : Bytes → Bytes → GoM Bool) (undef : D) (pol) (g : Gen.InvTok D C A) (ds : List (Gen.DlgTok D S))
     (sub : D) (hs : sub ≠ undef) (hlen : ds.length = g.proof.length) (fuel k : Nat) (hf : ds.length - k < fuel)
     (hk : k ≤ ds.length) (cmd : Bytes) (iss : D) (out : LoopOut Unit (Int × Bytes × D))
     (h : Gen.Inv_verifyProofs_shell.loop1 cov fuel g ds sub (k : Int) cmd iss = .ok out) :
@@ -97,7 +97,7 @@ theorem shell_loop (cov : Bytes → Bytes → GoM Bool) (undef : D) (pol) (g : G
 
 /-- C01 on the regenerated `verifyProofs`, for EVERY behaviour of the command test: nil ⇒ the chain is aligned on principals -/
 theorem verifyProofs_shell_principals {X : Type} (x : X) (args : Node) (cov : Bytes → Bytes → GoM Bool) (undef : D) (pol)
-    (g : Gen.InvTok D C) (ds : List (Gen.DlgTok D S)) (hs : g.subject ≠ undef) (hlen : ds.length = g.proof.length)
+    (g : Gen.InvTok D C A) (ds : List (Gen.DlgTok D S)) (hs : g.subject ≠ undef) (hlen : ds.length = g.proof.length)
     (h : Gen.Inv_verifyProofs_shell cov g ds = .ok ()) :
     Chain.PrincipalSpec (toInv x args g) (ds.map (toDlg undef pol)) := by
   apply PrincipalSpec_of_top
